@@ -257,6 +257,7 @@ func (c *DFACache) Clear() {
 	// Clear map (GC will reclaim memory)
 	c.states = make(map[StateKey]*State)
 	c.stateList = c.stateList[:0]
+	c.flatTrans = c.flatTrans[:0] // rows belong to the discarded state IDs
 	c.startTable = newStartTableFromByteMap(&c.startTable.byteMap)
 	c.nextID = StateID(c.stride)
 	c.clearCount = 0
@@ -287,6 +288,10 @@ func (c *DFACache) ClearKeepMemory() {
 		delete(c.states, k)
 	}
 	c.stateList = c.stateList[:0]
+	// State IDs restart at stride, so the transition rows of the discarded states
+	// must go too: a state inserted after the clear would otherwise inherit the
+	// already-filled row of whichever old state had the same ID.
+	c.flatTrans = c.flatTrans[:0]
 	c.startTable = newStartTableFromByteMap(&c.startTable.byteMap)
 	c.nextID = StateID(c.stride)
 	c.clearCount++
@@ -343,6 +348,7 @@ func (c *DFACache) Reset() {
 		delete(c.states, k)
 	}
 	c.stateList = c.stateList[:0]
+	c.flatTrans = c.flatTrans[:0] // rows belong to the discarded state IDs
 	c.startTable = newStartTableFromByteMap(&c.startTable.byteMap)
 	c.nextID = StateID(c.stride)
 	c.clearCount = 0
